@@ -18,7 +18,9 @@ def load(p):
     return out
 lab = load(os.path.join(ROOT, "sensitivity", "seeded_lab.jsonl"))
 onrepo = load(os.path.join(ROOT, "sensitivity", "seeded_on_repo.jsonl"))
-for name, (prop, what, needs) in sorted(desc.items()):
+for name, entry in sorted(desc.items()):
+    prop, what, needs = entry[:3]
+    note = entry[3] if len(entry) > 3 else None
     d = os.path.join(ROOT, "seeded", name)
     if not os.path.isdir(d): continue
     l = lab.get(name, {}); r = onrepo.get(name, {})
@@ -31,5 +33,7 @@ for name, (prop, what, needs) in sorted(desc.items()):
         "how_run": "tools/seeded_on_repo.sh %s: git -C /repo apply patch.diff; ./bin/check <ID> quick; git -C /repo checkout -- ." % name,
         "caught_by": sorted(k for k, v in r.get("results", {}).items() if v["rc"] == 1),
     }
+    if note:
+        meta["note"] = note
     json.dump(meta, open(os.path.join(d, "meta.json"), "w"), indent=1, ensure_ascii=False)
 print("meta.json written for", sum(1 for n in desc if os.path.isdir(os.path.join(ROOT, "seeded", n))), "mutants")
